@@ -84,6 +84,8 @@ func execC16(c Case) string {
 			must(err)
 		case "msgbytes":
 			b = bchutil.NewBlockFromBlockAndBytes(msg, ser)
+		case "msgbytesbad": // the caller hands over bytes that are NOT the serialisation of the message (a[4])
+			b = bchutil.NewBlockFromBlockAndBytes(msg, trailing)
 		default:
 			panic("harness: ctor")
 		}
@@ -279,6 +281,14 @@ func genC16(r *Rng, tier string, emit func(Case)) {
 	n := 200
 	if tier == "thorough" {
 		n = 5000
+	}
+	// message + bytes where the bytes belong to another block: the documented contract is that the caller vouches for them
+	for i := 0; i < 2; i++ {
+		ntx := 1 + r.Intn(3)
+		salt := r.U64() & 0xffff
+		var ob bytes.Buffer
+		must(synthBlock(ntx+1, uint32(salt)+1, false).Serialize(&ob))
+		e("blk", "msgbytesbad", "msgbytesbad", itoa(ntx), u64s(salt), "0", hx(ob.Bytes()), "S,B,T0,H0,S")
 	}
 	ctors := []string{"msg", "bytes", "reader", "msgbytes"}
 	for i := 0; i < n; i++ {
